@@ -7,7 +7,7 @@ STATS = dict(schemas=0, json_accepted=0, cedar_rendered=0, cedar_accepted=0, bot
 
 def _case(world, c, i):
     """CASE line of MC_SchemaSyntax -> harness case; the renderer style (quoting / layout) cycles with the case number"""
-    return dict(id=i, s=c["s"], coord=c["coord"], cedar=c["cedar"], ok=c["ok"], style=i % 4)
+    return dict(id=i, s=c["s"], coord=c["coord"], cedar=c["cedar"], ok=c["ok"], style=i % 8)
 
 
 def _loaded(ev, k):
